@@ -5,7 +5,7 @@ LEVEL = "exploration"
 
 
 def run(chk, b, tier):
-    n = 240 if tier == "quick" else 6000
+    n = 240 if tier == "quick" else 15000
 
     def nt(f):
         return ["objects>=3"] + (["merges"] if f["merge_commits"] else []) if f["objects"] >= 3 else []
